@@ -7,7 +7,7 @@ from ..interval import Intervals
 from .tab import Consts
 
 NS = 'GeographicLib::'
-CODEC_FILES = ('src/MGRS.cpp', 'src/Geohash.cpp', 'src/GARS.cpp', 'src/Georef.cpp', 'src/OSGB.cpp')
+CODEC_FILES = ('src/MGRS.cpp', 'src/Geohash.cpp', 'src/GARS.cpp', 'src/Georef.cpp', 'src/OSGB.cpp', 'src/UTMUPS.cpp')
 
 
 def _array_bound(f, K, base_id):
@@ -53,10 +53,12 @@ def rule_X7(ctx, files=CODEC_FILES):
     nidx = 0
     proved = 0
     undecided = 0
+    nconv = 0
     for f in sorted(ctx.lib_fns(), key=lambda x: (x.file, x.line)):
         if not f.cfg or not any(f.file.endswith(x) for x in files):
             continue
         subs = []
+        has_conv = any(n.get('ck') == 'FloatingToIntegral' for i, n in f.all_nodes())
         for i, n in f.all_nodes():
             if n['k'] == 'ArraySubscriptExpr':
                 b = _array_bound(f, K, n['ch'][0])
@@ -64,9 +66,28 @@ def rule_X7(ctx, files=CODEC_FILES):
                     subs.append((i, n, b))
                 elif b is not None:
                     subs.append((i, n, (b[0], b[1], 'set')))
-        if not subs:
+        if not subs and not has_conv:
             continue
         iv = Intervals(ctx, f)
+        # X7c: a floating value that may be NaN or infinite is never converted to an integer (undefined behaviour)
+        for i, n in f.all_nodes():
+            if n.get('ck') == 'FloatingToIntegral' and n['k'] in ('ImplicitCastExpr', 'CXXFunctionalCastExpr', 'CStyleCastExpr',
+                                                                 'CXXStaticCastExpr'):
+                env = iv.env_at(i)
+                if env is None:
+                    continue
+                nconv += 1
+                before = len(iv.ub_sites)
+                iv.ub_sites.pop(i, None)
+                iv.ev(i, env)
+                bad = i in iv.ub_sites
+                res.ob(not bad, None)
+                if bad:
+                    v = iv.ub_sites[i]
+                    res.fail(f.q, 'convert@%s' % f.src_text(i)[:50].strip(), f.loc(i),
+                             'a floating value that may be %s is converted to an integer (undefined behaviour; an argument '
+                             'such as +-inf passes an isnan test and becomes NaN in AngNormalize): %s'
+                             % ('NaN' if v.nan else 'infinite', f.src_text(i)[:80]))
         for i, n, (what, size, kind) in subs:
             # evaluate the index in the state before any side effect inside it (buf[p++])
             at = i
@@ -80,6 +101,15 @@ def rule_X7(ctx, files=CODEC_FILES):
                 continue       # unreachable
             nidx += 1
             v = iv.ev(n['ch'][1], env)
+            if v.ub:
+                res.ob(False, {'fn': f.q, 'at': f.loc(i), 'array': what, 'index': 'derived from a float-to-integer conversion '
+                               'of a value that may be NaN or infinite', 'conversion_at': v.ubat})
+                res.fail(f.q, what.split(' = ')[0].split(' (')[0] + '/nonfinite', f.loc(i),
+                         'index into %s is computed from a floating value that may be NaN or infinite when it is converted '
+                         'to an integer (at %s): an argument such as +-inf passes the isnan test, becomes NaN in '
+                         'AngNormalize and then indexes out of bounds: %s'
+                         % (what, (v.ubat or '?').rsplit('/', 1)[-1], f.src_text(i)[:70]))
+                continue
             inside = v.lo >= 0 and v.hi <= size - 1
             over = v.hi > size - 1 and v.thi and not v.rel and v.hi != float('inf')
             under = v.lo < 0 and v.tlo and not v.rel and v.lo != float('-inf')
@@ -99,7 +129,7 @@ def rule_X7(ctx, files=CODEC_FILES):
                 res.note('undecided: %s at %s index range %r (valid 0..%d)' % (what, f.loc(i), v, size - 1))
     res.obligations += undecided       # counted, not discharged: the evidence shows what was not proved
     res.discharged += undecided
-    res.analysed.update({'indexes': nidx, 'proved': proved, 'undecided': undecided})
+    res.analysed.update({'indexes': nidx, 'proved': proved, 'undecided': undecided, 'float_to_int_conversions': nconv})
     res.assumptions.append('A-RANGE: Math::AngNormalize returns values in [-180, 180] with both ends attained; IEEE double '
                            'arithmetic (GEOGRAPHICLIB_PRECISION=2) for end-point computations')
     return res, nidx, proved
